@@ -19,6 +19,8 @@ from .. import astutil as A
 from ..dep import Deps
 from ..fwd import calls_to, check_forward
 from ..loader import AnalysisError
+from ..alg import Interp, Obj, Poly, Undecided, to_poly
+from ..alg import fn as alg_fn
 
 EXPLANATION = (
     "Structural necessary conditions of C09 decided on the source of infer/intervals: "
@@ -197,6 +199,28 @@ def run(ctx):
         else:
             ctx.violated(r3, lin, call, "x-grid and curve values are not reversed together (numpy.interp needs an increasing xp paired element-wise with fp)",
                          expected="curve[::-1], scan[::-1]", found=f"{A.short(xp, 40)}, {A.short(fp, 40)}", node=call)
+        # the ordinate must BE the scanned points (reversed / converted), not a grid recomputed from them
+        try:
+            opaque = lambda nm: (lambda a, k: alg_fn(nm, *[to_poly(x) if not isinstance(x, (list, tuple)) else Poly.atom("SEQ") for x in a]))
+            ext = {"linspace": opaque("linspace"), "arange": opaque("arange"), "sorted": opaque("sorted"), "sort": opaque("sort"), "unique": opaque("unique"), "flip": lambda a, k: a[0], "reversed": lambda a, k: a[0], "len": opaque("len")}
+            env = {"scan": Poly.atom("SCAN"), "results": Poly.atom("RESULTS"), "level": Poly.atom("LEVEL"), "np": Obj("np"), "tb": Obj("tbh")}
+            it = Interp(env, {}, {}, externals=ext)
+            pmx = A.parent_map(lin.node)
+            for st in A.strip_docstring(lin.node.body):
+                if st.lineno >= A.stmt_of(call, pmx).lineno:
+                    break
+                if isinstance(st, ast.Assign) and not any(A.call_attr(c) in ("hypotest", "concatenate", "astensor") for c in A.calls_in(st.value)):
+                    try:
+                        it.exec(st)
+                    except Undecided:
+                        pass
+            fv = to_poly(it.eval(fp))
+            if fv == Poly.atom("SCAN"):
+                ctx.holds(r3, f"{UL}::linear_grid_scan: ordinate", "the scanned POI values themselves")
+            else:
+                ctx.violated(r3, lin, call, f"the POI axis of the inverse interpolation is recomputed ({fv}) instead of being the scanned points: for a non-uniform or unsorted scan the limit is read off the wrong abscissae", expected="scan (reversed together with the curve)", found=str(fv), node=call)
+        except Undecided as e:
+            ctx.unrecognised(r3, lin, fp, f"ordinate not interpretable: {e}")
         # xp must derive from hypotest results, fp from scan
         if not ldeps.depends_on(fp, "scan"):
             ctx.violated(r3, lin, call, "ordinate of the inverse interpolation does not derive from `scan`", expected="scan[::-1]", found=A.short(fp, 40), node=call)
@@ -225,21 +249,50 @@ def run(ctx):
         "(grid mode: (scan, results); automatic mode: the cache's keys and values)",
         "DEP", floor=2,
     )
-    for fn, guard in ((lin, "return_results"), (toms, "from_upper_limit_fn")):
-        fdeps = Deps(fn.node)
+    for fn_, guard in ((lin, "return_results"), (toms, "from_upper_limit_fn")):
+        fdeps = Deps(fn_.node)
         found = False
-        for n in ast.walk(fn.node):
+        for n in ast.walk(fn_.node):
             if isinstance(n, ast.If) and guard in A.names_loaded(n.test):
                 for r in n.body:
                     if isinstance(r, ast.Return) and isinstance(r.value, ast.Tuple) and len(r.value.elts) == 3:
                         found = True
                         third = r.value.elts[2]
-                        if _depends_on_call(fdeps, third, "hypotest", fn.node):
-                            ctx.holds(r4, f"{UL}::{fn.name}: {A.short(r, 70)}")
+                        exact = True
+                        if fn_ is lin:
+                            exact = isinstance(third, ast.Tuple) and [A.dotted(e) for e in third.elts] == ["scan", "results"]
+                        elif isinstance(third, ast.Tuple) and len(third.elts) == 2:
+                            t0, t1 = A.unparse(third.elts[0]).replace(" ", ""), A.unparse(third.elts[1]).replace(" ", "")
+                            exact = t0 in ("list(cache)", "list(cache.keys())") and t1 == "list(cache.values())"
+                        if not exact:
+                            ctx.violated(r4, fn_, r, "the per-point results are not returned as (the scan points, the hypotest results at those points) in matching order", expected="(scan, results) / (list(cache), list(cache.values()))", found=A.short(third, 80), node=r)
+                        elif _depends_on_call(fdeps, third, "hypotest", fn_.node):
+                            ctx.holds(r4, f"{UL}::{fn_.name}: {A.short(r, 70)}")
                         else:
-                            ctx.violated(r4, fn, r, "per-point results returned do not derive from the hypotest evaluations", expected="(points, hypotest results)", found=A.short(third, 60), node=r)
+                            ctx.violated(r4, fn_, r, "per-point results returned do not derive from the hypotest evaluations", expected="(points, hypotest results)", found=A.short(third, 60), node=r)
         if not found:
-            ctx.unrecognised(r4, fn, guard, "no 3-tuple return guarded by the results flag")
+            ctx.unrecognised(r4, fn_, guard, "no 3-tuple return guarded by the results flag")
+    for scan_given in (True, False):
+        for rr in (True, False):
+            lab = f"scan={'given' if scan_given else 'None'} return_results={rr}"
+            try:
+                seen = {}
+                RES = (Obj("POINTS"), Obj("POINT_RESULTS"))
+                ext = {"linear_grid_scan": lambda a, k: (seen.__setitem__("grid", (a, k)) or ((Poly.atom("OBS"), Poly.atom("EXP"), RES) if (len(a) > 4 and a[4] is True) or k.get("return_results") is True else (Poly.atom("OBS"), Poly.atom("EXP")))),
+                       "toms748_scan": lambda a, k: (seen.__setitem__("auto", (a, k)) or (Poly.atom("OBS"), Poly.atom("EXP"), RES)),
+                       "sorted": lambda a, k: Obj(f"sorted({getattr(a[0], 'name', a[0])})"), "reversed": lambda a, k: Obj(f"reversed({getattr(a[0], 'name', a[0])})")}
+                cfg = Obj("config", {"poi_name": "mu"})
+                env = {"data": Obj("data"), "model": Obj("model", {"config": cfg}), "scan": (Poly.atom("SCAN") if scan_given else None), "level": Poly.atom("LEVEL"), "return_results": rr, "hypotest_kwargs": {}}
+                out = Interp(env, {}, {}, externals={**ext, ".suggested_bounds": lambda r_, a, k: [(Poly.atom("LO"), Poly.atom("HI"))], ".par_slice": lambda r_, a, k: Obj("sl", {"start": Poly.const(0)})}).run(A.strip_docstring(upper_limit.node.body))
+                want = ["OBS", "EXP", "(POINTS, POINT_RESULTS)"] if rr else ["OBS", "EXP"]
+                show = lambda x: ("(" + ", ".join(getattr(y, "name", str(y)) for y in x) + ")") if isinstance(x, (tuple, list)) else (x.name if isinstance(x, Obj) else str(to_poly(x)))
+                got = [show(x) for x in out] if isinstance(out, (tuple, list)) else [show(out)]
+                if got == want:
+                    ctx.holds(r4, f"{UL}::upper_limit [{lab}]", "returns the scan function's values unchanged")
+                else:
+                    ctx.violated(r4, upper_limit, f"upper_limit return [{lab}]", "upper_limit does not hand back the scan's (observed, expected, per-point results) unchanged: the points and the results reported no longer correspond", expected=str(want), found=str(got))
+            except Undecided as e:
+                ctx.unrecognised(r4, upper_limit, f"upper_limit [{lab}]", f"not interpretable: {e}")
     # upper_limit returns what the scan returned
     udeps = Deps(upper_limit.node)
     rets = [n for n in ast.walk(upper_limit.node) if isinstance(n, ast.Return) and n.value is not None]
